@@ -827,11 +827,20 @@ impl<B> Flow<B, Redirect> {
             RedirectAuthHeaders::SameHost => can_redirect_auth_header(request.uri(), &uri),
         };
 
+        // A Host header set on the original request names the host that request was
+        // meant for. It must not follow the request to another host, where the header
+        // is instead derived from the new uri.
+        let keep_host_header =
+            request.uri().authority().map(|a| a.host()) == uri.authority().map(|a| a.host());
+
         // Override with the new uri
         request.set_uri(uri);
 
         if !keep_auth_header {
             request.unset_header("authorization")?;
+        }
+        if !keep_host_header {
+            request.unset_header("host")?;
         }
         request.unset_header("cookie")?;
         request.unset_header("content-length")?;
